@@ -146,14 +146,14 @@ def _gatt_prop(pid, target, rule, level_text, technique='generated C++ server de
 
 # ------------------------------------------------------------------------------------------------- targets and properties
 _Q = dict(cases=120000, size=100, max_seconds=150)
-_T = dict(cases=600000, size=150, max_seconds=2400)
+_T = dict(cases=8000000, size=150, max_seconds=3000)
 
-_gatt_target('gatt_c01', 'default', 24, 200, quick=dict(_Q, opts={'max_ops': 40}), thorough=_T)
+_gatt_target('gatt_c01', 'default', 24, 300, quick=dict(_Q, opts={'max_ops': 40}), thorough=_T)
 TARGETS['gatt_c01_fuzz'] = dict(name='gatt_c01_fuzz', src=[], builder='gatt', kind='fuzz', fuzz=True, profile='default',
                                 decls={'quick': 8, 'thorough': 24},
                                 quick=dict(runs=100000, max_seconds=90, max_len=1024), thorough=dict(runs=20000000, max_seconds=1800, max_len=1024))
 _gatt_prop('C01', ['gatt_c01', 'gatt_c01_fuzz'],
-           rule='24 (quick) / 200 (thorough) generated server declarations (services, characteristics of every value kind, descriptors, fixed handles, '
+           rule='24 (quick) / 300 (thorough) generated server declarations (services, characteristics of every value kind, descriptors, fixed handles, '
                 'includes, write queue, MTU 23..300) x rapidcheck histories of <= 40 operations: valid requests built from the declared database, the '
                 'same truncated/extended, every opcode 0x00..0xFF with random body, MTU exchanges, prepared writes, security changes; input and output '
                 'are exact-size heap buffers under ASan/UBSan; non-trivial = the history contains a PDU that is malformed / has an unknown opcode / gets an '
@@ -161,7 +161,7 @@ _gatt_prop('C01', ['gatt_c01', 'gatt_c01_fuzz'],
            level_text='memory safety through sanitizers on exact-size buffers plus the framing table of Vol 3 Part F 3.3/3.4 checked for every response; sampling of '
                       'declarations and histories, no proof')
 
-_gatt_target('gatt_c02', 'discovery', 24, 200, quick=dict(_Q, opts={'max_ops': 30}), thorough=_T)
+_gatt_target('gatt_c02', 'discovery', 24, 300, quick=dict(_Q, opts={'max_ops': 30}), thorough=_T)
 _gatt_prop('C02', 'gatt_c02',
            rule='generated declarations with fixed handles and gaps (60 %), 16/128-bit UUID mixes, all MTUs x histories of Find Information / Read By Type / Read By '
                 'Group Type requests whose (start,end) come from the interesting set (every handle, handle+-1, gap interiors, 1, 0xFFFF, random) and types present '
@@ -170,14 +170,14 @@ _gatt_prop('C02', 'gatt_c02',
            level_text='every response is judged by range/type/order/value predicates over the declared database, Attribute Not Found iff nothing matches, and '
                       'continuation walks must enumerate every matching attribute exactly once; sampling')
 
-_gatt_target('gatt_c03', 'secondary', 24, 200, quick=dict(_Q, opts={'max_ops': 30}), thorough=_T)
+_gatt_target('gatt_c03', 'secondary', 24, 300, quick=dict(_Q, opts={'max_ops': 30}), thorough=_T)
 _gatt_prop('C03', 'gatt_c03',
            rule='generated declarations with 2-4 services, each primary or secondary, 16/128-bit UUIDs x Read By Group Type <<Primary Service>> and Find By Type '
                 'Value <<Primary Service>> (every declared UUID, absent UUIDs, wrong lengths) over interesting ranges, single requests and complete walks; '
                 'non-trivial = a secondary service lies in a walked range',
            level_text='reported groups must be exactly the declared primary services intersecting the range with their real end handles and UUIDs; sampling')
 
-_gatt_target('gatt_c04', 'handles', 32, 300, quick=dict(cases=200000, size=60, max_seconds=150, opts={'max_ops': 12}), thorough=dict(cases=600000, size=100, max_seconds=2400, opts={'max_ops': 12}))
+_gatt_target('gatt_c04', 'handles', 32, 300, quick=dict(cases=200000, size=60, max_seconds=150, opts={'max_ops': 12}), thorough=dict(cases=4000000, size=100, max_seconds=2400, opts={'max_ops': 12}))
 _gatt_prop('C04', 'gatt_c04',
            rule='32 (quick) / 300 (thorough) generated declarations stressing attribute_handle<> on services and characteristics, attribute_handles<D,V,C>, '
                 'descriptors, includes (forward/backward, 16/128 bit), secondary services, GAP service on/off. Per declaration a complete enumeration: '
@@ -187,7 +187,7 @@ _gatt_prop('C04', 'gatt_c04',
            level_text='per declaration exhaustive over the handle space; the expected handle table is computed from the declaration text by the documented '
                       'sequential rule; declarations are sampled')
 
-_gatt_target('gatt_c05', 'enc', 24, 200, quick=dict(_Q, opts={'max_ops': 40}), thorough=_T)
+_gatt_target('gatt_c05', 'enc', 24, 300, quick=dict(_Q, opts={'max_ops': 40}), thorough=_T)
 _gatt_prop('C05', 'gatt_c05',
            rule='generated declarations with requires_encryption / no_encryption_required / may_require_encryption placed on server x service x characteristic '
                 'x histories of Read, Read Blob, Read By Type, Read Multiple, Write, Write Command, Prepare/Execute, CCCD access, notify/indicate + output '
@@ -196,7 +196,7 @@ _gatt_prop('C05', 'gatt_c05',
            level_text='protected values never appear in any PDU sent on an unencrypted link (4-byte window search over every output), are never modified '
                       '(whole-store comparison) and the rejection carries 0x05 / 0x0F as stated; sampling')
 
-_gatt_target('gatt_c06', 'default', 24, 200, quick=dict(_Q, opts={'max_ops': 40}), thorough=_T)
+_gatt_target('gatt_c06', 'default', 24, 300, quick=dict(_Q, opts={'max_ops': 40}), thorough=_T)
 _gatt_prop('C06', 'gatt_c06',
            rule='all value kinds/sizes/permission options x histories of Read / Read Blob / Write / Write Command / Read Multiple with offsets 0, len-1, len, len+1, '
                 '0xFFFF and lengths 0..MTU+5, interleaved with the application changing bound variables; non-trivial = offset != 0, length != sizeof(value) or '
@@ -204,7 +204,7 @@ _gatt_prop('C06', 'gatt_c06',
            level_text='byte-exact reference store compared with every bound variable after every request; reads must return the reference slice, Invalid Offset '
                       'past the end; permissions enforced on every path; declared properties byte equals what the model permits; sampling')
 
-_gatt_target('gatt_c07', 'queue', 24, 200, quick=dict(_Q, opts={'max_ops': 40}), thorough=_T)
+_gatt_target('gatt_c07', 'queue', 24, 300, quick=dict(_Q, opts={'max_ops': 40}), thorough=_T)
 _gatt_prop('C07', 'gatt_c07',
            rule='declarations with shared_write_queue<16..200> x 3 connections x histories of prepare / execute(0|1|other) / write / read / disconnect / security '
                 'changes with overlapping offsets and queue overflow on every attribute kind; non-trivial = a second connection prepares while the queue is owned, '
@@ -212,21 +212,21 @@ _gatt_prop('C07', 'gatt_c07',
            level_text='reference queue: nothing changes before Execute(1), Execute applies exactly the owner\'s entries in order (store comparison), queue released on '
                       'execute/cancel/disconnect, foreign clients get Prepare Queue Full, prepare accepted iff a Write Request would be permitted; sampling')
 
-_gatt_target('gatt_c08', 'mtu', 24, 200, quick=dict(_Q, opts={'max_ops': 40}), thorough=_T)
+_gatt_target('gatt_c08', 'mtu', 24, 300, quick=dict(_Q, opts={'max_ops': 40}), thorough=_T)
 _gatt_prop('C08', 'gatt_c08',
            rule='all max_mtu_size values with long values (up to 300 bytes) x sequences of Exchange MTU (0..22, 23, 24.., 0xFFFF, wrong lengths) interleaved with long '
                 'reads, Read By Type, notifications and indications; non-trivial = an exchange succeeded with MTU != 23 or was rejected',
            level_text='model MTU = min(server max, last valid client MTU); every response / notification / indication is <= MTU and a longer value fills it exactly; '
                       'invalid exchanges are rejected and leave the MTU; sampling')
 
-_gatt_target('gatt_c09', 'cccd', 24, 200, quick=dict(_Q, opts={'max_ops': 40}), thorough=_T)
+_gatt_target('gatt_c09', 'cccd', 24, 300, quick=dict(_Q, opts={'max_ops': 40}), thorough=_T)
 _gatt_prop('C09', 'gatt_c09',
            rule='declarations with 1..9 CCCDs (crossing the 4 per byte packing), priorities on/off, update callback x 3 connections x histories of CCCD writes of '
                 '0..3 bytes with all 16 bit values, prepare/execute, reads and other traffic; non-trivial = CCCDs written on >= 2 connections or >= 5 CCCDs',
            level_text='per (connection, characteristic) 2-bit reference; after every CCCD write all cells of all connections are read back; callback count equals the '
                       'number of value changes; sampling')
 
-_gatt_target('gatt_c10', 'notify', 24, 200, quick=dict(_Q, opts={'max_ops': 40}), thorough=_T)
+_gatt_target('gatt_c10', 'notify', 24, 300, quick=dict(_Q, opts={'max_ops': 40}), thorough=_T)
 _gatt_prop('C10', 'gatt_c10',
            rule='declarations with 2..8 notify/indicate characteristics and every documented higher_outgoing_priority placement x histories of subscribe / '
                 'unsubscribe, notify(var), notify<uuid>(), indicate(...), value changes, output polling, confirmations; non-trivial = the declaration has '
@@ -234,14 +234,14 @@ _gatt_prop('C10', 'gatt_c10',
            level_text='every emitted 0x1B/0x1D PDU must carry the value handle of a characteristic with a pending request of that kind, its current value, to a '
                       'subscribed connection; repeated requests give one PDU; return value of notify() == newly queued; sampling')
 
-_gatt_target('gatt_c11', 'notify', 24, 200, quick=dict(_Q, opts={'max_ops': 40}), thorough=_T)
+_gatt_target('gatt_c11', 'notify', 24, 300, quick=dict(_Q, opts={'max_ops': 40}), thorough=_T)
 _gatt_prop('C11', 'gatt_c11',
            rule='as C10 with confirmations of valid / wrong length / spurious kind and disconnects; after the history the harness keeps confirming and polling '
                 '4*(N+2) rounds; non-trivial = two requests pending at once or an indication requested while unsubscribed',
            level_text='no second indication between an indication and its confirmation; bounded liveness: every request that stayed sendable is transmitted during '
                       'the drain; wrong-length confirmations are rejected; sampling')
 
-_gatt_target('gatt_c14', 'adv', 32, 300, quick=dict(cases=200000, size=100, max_seconds=150, opts={'max_ops': 40}), thorough=dict(cases=1000000, size=100, max_seconds=2400, opts={'max_ops': 64}))
+_gatt_target('gatt_c14', 'adv', 32, 300, quick=dict(cases=200000, size=100, max_seconds=150, opts={'max_ops': 40}), thorough=dict(cases=6000000, size=100, max_seconds=2400, opts={'max_ops': 64}))
 _gatt_prop('C14', 'gatt_c14',
            rule='declarations over names (0..40 chars), appearance, 16/128-bit service lists (automatic and explicit), connection interval range, custom '
                 'advertising / scan response data x buffer sizes 0..31 for advertising_data() and scan_response_data() into exact-size heap buffers; '
